@@ -2,7 +2,9 @@
 
 use crate::report::Tier;
 
+pub mod c01;
 pub mod c02;
+pub mod c05;
 pub mod c06;
 pub mod c07;
 pub mod c09;
@@ -17,7 +19,9 @@ pub mod seeds;
 /// Run the check for a property; returns the process exit code.
 pub fn run(prop: &str, tier: Tier, seed: u64) -> Option<i32> {
     Some(match prop {
+        "C01" => c01::run(tier, seed),
         "C02" => c02::run(tier, seed),
+        "C05" => c05::run(tier, seed),
         "C08" => c02::run_c08(tier, seed),
         "C06" => c06::run(tier, seed),
         "C07" => c07::run(tier, seed),
@@ -34,7 +38,9 @@ pub fn run(prop: &str, tier: Tier, seed: u64) -> Option<i32> {
 
 pub fn replay(prop: &str, witness: &serde_json::Value) -> Option<i32> {
     Some(match prop {
+        "C01" => c01::replay(witness),
         "C02" | "C08" => c02::replay(witness),
+        "C05" => c05::replay(witness),
         "C06" => c06::replay(witness),
         "C07" => c07::replay(witness),
         "C09" => c09::replay(witness),
